@@ -36,7 +36,7 @@ def cases(tier, seed):
     for a in RANGES:
         yield {"hist": True, "first_range": list(a)}
     # long documents (thousands of tokens; token-buffer / block sizes), with n-gram ranges spanning 2 to 5 lengths
-    for N in (300, 4097, 4099, 9001) + ((20001, 70001) if tier == "thorough" else ()):
+    for N in (300, 4097, 4099, 9001, 100003, 131073) + ((20001, 70001, 262147) if tier == "thorough" else ()):
         yield {"long": N, "first": [], "second": ["the aab aa", ""], "opts": "long"}
     # documents of four tokens over an alphabet in which different n-grams concatenate to the same string (no+table = not+able)
     coll = [" ".join(t) for t in itertools.product(("no", "not", "able", "table"), repeat=4)]
